@@ -632,3 +632,40 @@ def preassigned_target_withdrawn(P, R, rid):
             'in advance (non-distributed application) when that instance is invalidated: neither on_instances_invalidation '
             'withdraws it (command.identifier = None under `command.identifier in invalidated_identifiers`, over '
             'planned_jobs) nor process_job tests that it is RUNNING before command.start()')
+
+
+def process_of_namespec_tested(P, R, rid):
+    """RPCInterface._get_application_process(namespec) answers (application, None) for a namespec that designates a whole
+    group ('group:*' or 'group'): when the namespec is a parameter of the XML-RPC, the process part is only dereferenced
+    behind a truthiness test - otherwise AttributeError leaves the XML-RPC instead of a fault."""
+    from ..paths import factmap, call_text
+    RPC = P.cls('RPCInterface')
+    n = 0
+    for u in RPC.methods.values():
+        if u.name.startswith('_'):
+            continue
+        params = {a.arg for a in u.node.args.args}
+        fm = None
+        for a in own_nodes(u.node):
+            if not (isinstance(a, ast.Assign) and isinstance(a.value, ast.Call) and
+                    call_text(a.value) == 'self._get_application_process' and isinstance(a.targets[0], ast.Tuple)
+                    and len(a.targets[0].elts) == 2 and isinstance(a.targets[0].elts[1], ast.Name)
+                    and a.value.args and isinstance(a.value.args[0], ast.Name) and a.value.args[0].id in params):
+                continue
+            var = a.targets[0].elts[1].id
+            fm = fm or factmap(u)
+            rebound = [(s_.lineno, s_.col_offset) for s_ in ast.walk(u.node) if isinstance(s_, ast.Name) and s_.id == var
+                       and isinstance(s_.ctx, ast.Store) and s_ is not a.targets[0].elts[1]]
+            for x in own_nodes(u.node):
+                if isinstance(x, ast.Attribute) and isinstance(x.value, ast.Name) and x.value.id == var and \
+                        isinstance(x.ctx, ast.Load) and (x.lineno, x.col_offset) > (a.lineno, a.col_offset):
+                    if any((a.lineno, a.col_offset) < r_ < (x.lineno, x.col_offset) for r_ in rebound):
+                        continue        # the name was bound again (a loop over the processes of the group)
+                    n += 1
+                    fs = {(f[0], f[1]) for f in fm.at(x)}
+                    ok = (var, True) in fs or (var + ' is None', False) in fs
+                    R.check(rid, ok, '%s: `%s.%s` behind a test of the process part' % (u.qual, var, x.attr),
+                            'namespec-process|%s|%s' % (u.qual, x.attr), u.loc(x), 'RPCInterface.%s reads `%s.%s` while `%s` is '
+                            'None for a namespec that designates a group (%s:*): AttributeError leaves the XML-RPC' %
+                            (u.name, var, x.attr, var, 'group'))
+    R.require(n >= 3, 'only %d dereferences of the process part of a namespec found' % n)
